@@ -88,7 +88,9 @@ func (s *Server) referrerGet(repoStr, arg string) http.HandlerFunc {
 			}
 			// cache search for paged data failed, regenerate from current state, only use page counter if digest matches
 		}
+		s.indexMu.RLock()
 		index, err := repo.IndexGet()
+		s.indexMu.RUnlock()
 		if err != nil {
 			w.Header().Add("content-type", types.MediaTypeOCI1ManifestList)
 			w.WriteHeader(http.StatusOK)
